@@ -536,8 +536,13 @@ class C20(core.Check):
             while not stops and time.time() - t0 < 60:
                 time.sleep(0.01)
             time.sleep(0.4)                              # 20 periods
+            t1 = time.time()
+            while True:                                  # the worker is still inside bus.restart(): let it return
+                live = [t for t in threading.enumerate() if isinstance(t, plugins.BackgroundTask) and t.is_alive()]
+                if not live or time.time() - t1 > 10:
+                    break
+                time.sleep(0.02)
             after = len(calls) - (stops[0][1] if stops else 0)
-            live = [t for t in threading.enumerate() if isinstance(t, plugins.BackgroundTask) and t.is_alive()]
             self.count('autoreload: the worker stops its own monitor through bus.restart()')
             obs = {'stop_returned': bool(stops), 'callback_calls_after_stop': after, 'live_workers': len(live)}
             if not stops:
@@ -586,8 +591,15 @@ class C20(core.Check):
                 t0 = time.time()
                 while want and len(calls) < 2 and time.time() - t0 < 60:
                     time.sleep(0.01)
-                live = [t for t in threading.enumerate() if isinstance(t, plugins.BackgroundTask) and t.is_alive()
-                        and t.name == 'c20-dying']
+                # a cancelled worker (daemon threads are not joined by stop()) ends within one period: give it ten
+                # seconds before counting; a worker that was never cancelled is still there after that
+                t1 = time.time()
+                while True:
+                    live = [t for t in threading.enumerate() if isinstance(t, plugins.BackgroundTask) and t.is_alive()
+                            and t.name == 'c20-dying']
+                    if len(live) <= want or time.time() - t1 > 10:
+                        break
+                    time.sleep(0.02)
                 obs = {'worker_died': died, 'live_workers': len(live), 'callback_calls': len(calls),
                        'monitor_thread_alive': bool(mon.thread is not None and mon.thread.is_alive())}
                 self.count('dead-worker history: start, callback raises, %s' % ', '.join(prog))
